@@ -480,7 +480,7 @@ fn judge(o: &mut Outcome, c: &Case, out: &CaseOut) {
         }
     }
     for v in out.log.violations() {
-        o.violation("c10:protocol-violation-seen-by-node", v, replay.clone());
+        o.node_violation("c10", &v, replay.clone());
     }
     let mut ok = 0u64;
     let mut err = 0u64;
@@ -748,7 +748,7 @@ fn judge_survivor(o: &mut Outcome, seed: u64, r: &SurvOut) {
     o.case(fw::hash64(format!("surv:{seed}").as_bytes()), true);
     o.class(&format!("sharded:one-shard-lost-its-connection:{}", r.how));
     for v in &r.violations {
-        o.violation("c10:protocol-violation-seen-by-node", v.clone(), replay.clone());
+        o.node_violation("c10", &v, replay.clone());
     }
     for (id, x) in r.inflight.iter().chain(r.probes.iter()) {
         match x {
